@@ -19,6 +19,7 @@ mod proc;
 mod c11;
 mod c12;
 mod c13;
+mod c14;
 mod c15;
 mod execchild;
 mod c16;
@@ -45,6 +46,7 @@ fn property(id: &str) -> Option<Property> {
         "C11" => c11::property(),
         "C12" => c12::property(),
         "C13" => c13::property(),
+        "C14" => c14::property(),
         "C15" => c15::property(),
         "C16" => c16::property(),
         "C17" => c17::property(),
